@@ -608,12 +608,12 @@ impl Gen {
     fn rand_value(&mut self) -> Vec<u8> {
         let len = match self.rng.below(20) {
             0..=1 => 0,
-            2..=11 => self.rng.range(1, 12) as usize,
-            12..=16 => self.rng.range(13, 40) as usize,
-            17..=18 => self.rng.range(41, 125) as usize,
-            _ => match self.rng.below(8) {
-                0..=4 => self.rng.range(126, 200) as usize,
-                5..=6 => self.rng.range(201, 420) as usize,
+            2..=12 => self.rng.range(1, 10) as usize,
+            13..=17 => self.rng.range(11, 32) as usize,
+            18 => self.rng.range(33, 125) as usize,
+            _ => match self.rng.below(16) {
+                0..=9 => self.rng.range(126, 170) as usize,
+                10..=13 => self.rng.range(171, 420) as usize,
                 _ => self.rng.range(421, 1200) as usize,
             },
         };
@@ -735,7 +735,13 @@ impl Gen {
             0..=11 => (max * 3 / 4 + self.rng.below(5) as usize).saturating_sub(2),
             12..=16 => (max + self.rng.below(5) as usize).saturating_sub(2),
             17..=22 => max + self.rng.range(1, 300) as usize,
-            _ => self.rng.range(4000, 20000) as usize,
+            _ => {
+                if self.rng.chance(1, 6) {
+                    self.rng.range(4000, 12000) as usize
+                } else {
+                    max * 3 / 4 + 1
+                }
+            }
         };
         let len = target.saturating_sub(32 + name_len).min(40000);
         self.rand_value_bytes(len)
@@ -753,9 +759,9 @@ impl Gen {
         let mut w = w;
         if self.cur_max > 700 {
             // a header around the size of a big table is a few thousand octets: keep them rare
-            w[6] = if self.rng.chance(1, 6) { 1 } else { 0 };
+            w[6] = if self.rng.chance(1, 10) { 1 } else { 0 };
         }
-        if !self.rng.chance(1, 40) {
+        if !self.rng.chance(1, 60) {
             w[8] = 0;
         }
         let total: u64 = w.iter().sum();
@@ -818,7 +824,7 @@ impl Gen {
                 sens: false,
             },
             _ => {
-                let len = self.rng.range(16000, 40000) as usize;
+                let len = self.rng.range(6000, 22000) as usize;
                 FieldIn {
                     name: Some(self.pool_name()),
                     value: self.rand_value_bytes(len),
@@ -992,7 +998,10 @@ impl Gen {
         if self.rng.chance(1, 2) {
             self.values.push(Vec::new());
         }
-        let n_blocks = self.rng.range(1, 8) as usize;
+        let n_blocks = match self.rng.below(10) {
+            0..=5 => self.rng.range(1, 4) as usize,
+            _ => self.rng.range(5, 8) as usize,
+        };
         let mut blocks = Vec::new();
         for bi in 0..n_blocks {
             let ups = if bi == 0 && self.rng.chance(2, 3) {
